@@ -40,10 +40,11 @@
     oracle clause     oracle_lengths_where_defined
     error records     (round 7, the channel `<-chan tree.Trees` with `Trees.Err` items, Model/C09Items.lean)
                       consensusItems_trees, consensusItems_bad_never_ok, consensusItems_input_err,
-                      consensusItems_taxa_before_record, skip_bad_items_wrong
-    source facts      (round 7, Gen/C09Facts.lean regenerated from tree/algo.go, tree/edgeindex.go,
-                      cmd/consensus.go by harness/c09/extract.go) sourceFactsCheck, range_facts_model,
-                      keep_facts_model, cli_default_fact
+                      consensusItems_taxa_before_record, skip_bad_items_wrong,
+                      consumedItems_range, consumedItems_all (round 7b: what has been read from the channel)
+    output text       newick_text_witness (round 7b, Model/C09Text.lean: the writer and the lexer the driver applies
+                      to the text written by cmd/consensus.go)
+    source facts      in Proofs/C09Tables.lean (round 7b: nothing in this file depends on a generated table)
   `consensus_splits_partial` keeps its round-1 name: it is the complete one-step lemma `insertSplit_spec`
   (not a partial result), superseded by `consensus_exact` / `consensus_meets_oracle`.
 
@@ -66,7 +67,8 @@ import Gotree.Lemmas.C09Reroot
 import Gotree.Lemmas.C09Float
 import Gotree.Lemmas.C09Witness
 import Gotree.Lemmas.C09Items
-import Gotree.Gen.C09Facts
+import Gotree.Lemmas.C09Consumed
+import Gotree.Model.C09Text
 
 namespace Gotree.C09
 open Gotree
@@ -1250,44 +1252,6 @@ example : consensusItems id ((exColl.take 2).map Item.tree ++ Item.bad "e" :: (e
 example : consumedItems (exColl.map Item.tree ++ [Item.bad "unreadable"]) (1/2) = 4 ∧
     consumedItems (exColl.map Item.tree) (1/4) = 0 := by decide +kernel
 
-/-! ### round 7: facts regenerated from the source (Gen/C09Facts.lean) -/
-
-/-- What `harness/c09/extract.go` reads in tree/algo.go, tree/edgeindex.go and cmd/consensus.go on every
-    run is what the model was written from: the range test and its message, `NewEdgeIndex(128, .75)`, the
-    order of the per-tree steps (`Reroot`, `RemoveSingleNodes`, `UnRoot`, `ReinitIndexes`), the count cut
-    and its FMA correction, the arguments of `Edges`, the filter of `EdgeIndex.Edges`, the refusal test of
-    `AddBipartition`, the flag `-f` (`--freq-min`) with
-    its own variable and default 0.5, that very variable handed to `tree.Consensus`. -/
-theorem sourceFactsCheck : (Gen.C09.facts == C09F.expected) = true := by decide +kernel
-
-/-- The range test of the source, interpreted over the rationals, is the model's
-    (`consensusG`: `if c < 1/2 || c > 1 then .err "range"`). -/
-theorem range_facts_model (c : Rat) :
-    C09F.evalB [("cutoff", c)] Gen.C09.facts.rangeCond = some (decide (c < 1/2) || decide (c > 1)) := by
-  have h : Gen.C09.facts.rangeCond = C09F.expectedRange := rfl
-  rw [h]
-  have e1 : ((1 : Nat) : Rat) / ((2 : Nat) : Rat) = 1/2 := by decide +kernel
-  have e2 : ((1 : Nat) : Rat) / ((1 : Nat) : Rat) = 1 := by decide +kernel
-  simp only [C09F.expectedRange, C09F.evalB, C09F.evalR, C09F.cmpR, List.lookup, e1, e2]
-  by_cases h1 : c < 1/2 <;> by_cases h2 : c > 1 <;> simp_all [Rat.not_lt] <;> grind
-
-/-- The filter of `EdgeIndex.Edges`, interpreted over the naturals, is the model's `keep`. -/
-theorem keep_facts_model (m n : Nat) (x : Entry) :
-    C09F.evalBN [("v.Count", x.count), ("minCount", m), ("maxCount", n)] Gen.C09.facts.keepCond
-      = some (keep m n x) := by
-  have h : Gen.C09.facts.keepCond = C09F.expectedKeep := rfl
-  rw [h]
-  simp [C09F.expectedKeep, C09F.evalBN, C09F.evalN, C09F.cmpN, List.lookup, keep]
-
-/-- The default of `-f` in the source is the model's (`cliCutoff none`), and the variable the flag
-    fills is the one handed to `tree.Consensus`. -/
-theorem cli_default_fact :
-    (C09F.evalR [] Gen.C09.facts.flagDefault).map some = some (cliCutoff none) ∧
-    Gen.C09.facts.consensusArgs = [.v "treechan", .v Gen.C09.facts.flagVar] := by
-  constructor
-  · decide +kernel
-  · rfl
-
 /-! ### round 7: the first obstacle in channel order decides -/
 
 /-- The first obstacle in channel order decides: a tree with other tips than the first one, placed in
@@ -1370,5 +1334,55 @@ theorem consensusItems_taxa_before_record (ord : List Entry → List Entry) (t :
       exact fun a => ⟨fun h => hsub' h, fun h => hback h⟩
   rw [this]
 
+
+/-! ### round 7b: how much of the channel `Consensus` has read when it returns -/
+
+/-- A threshold outside [1/2, 1]: nothing is taken from the channel. -/
+theorem consumedItems_range (items : List Item) (c : Rat) (h : c < 1/2 ∨ c > 1) :
+    consumedItems items c = 0 := by
+  unfold consumedItems
+  rw [if_pos (by simpa using h)]
+
+/-- In the domain every item is taken from the channel: on a clean run (only trees), and when an
+    error record follows trees of the domain (or comes first) — the drain loop — whatever stands
+    behind the record. -/
+theorem consumedItems_all (pre : List T) (c : Rat) (hc : 1/2 ≤ c ∧ c ≤ 1) (hdom : pre = [] ∨ domB pre = true) :
+    consumedItems (pre.map Item.tree) c = pre.length ∧
+    ∀ m rest, consumedItems (pre.map Item.tree ++ Item.bad m :: rest) c = pre.length + 1 + rest.length := by
+  have h1 : (decide (c < 1/2) || decide (c > 1)) = false := by
+    simp only [Bool.or_eq_false_iff, decide_eq_false_iff_not, Rat.not_lt]
+    exact ⟨hc.1, hc.2⟩
+  have hfr : firstRefused (pre.map rerootTip) = none := by
+    rcases hdom with rfl | hdom
+    · rfl
+    · rw [map_rerootTip_of_deg pre (deg_of_domB pre hdom)]
+      exact firstRefused_none_of_dom pre (dom_of_domB pre hdom)
+  constructor
+  · unfold consumedItems
+    rw [if_neg (by simp [h1]), splitItems_trees]
+    simp only [hfr, List.length_map]
+  · intro m rest
+    unfold consumedItems
+    rw [if_neg (by simp [h1]), splitItems_append_bad]
+    simp only [hfr, List.length_append, List.length_map, List.length_cons]
+    omega
+
+example : consumedItems (exColl.map Item.tree) (1/2) = 3 :=
+  (consumedItems_all exColl _ (by decide +kernel) (Or.inr (by decide +kernel))).1
+
+/-! ### round 7b: the text written by cmd/consensus.go -/
+
+/-- The Newick text of a consensus (`consensus id [exU1, exU1] (1/2)`, text `(c:2,(a:1,b:1)1:1,(d:1,e:3)1:0.5);`), read back by the lexer the
+    driver applies to the command's output, gives the writer's tokens; a text with another child
+    order, a missing support or another length does not agree. -/
+theorem newick_text_witness :
+    (match consensus id [exU1, exU1] (1/2) with
+     | .ok m =>
+       C09L.showToks (C09L.newickToks m) == "(c:2,(a:1,b:1)1:1,(d:1,e:3)1:0.5);" &&
+       C09L.lexNewick (C09L.showToks (C09L.newickToks m)) == C09L.newickToks m &&
+       C09L.textAgrees (C09L.showToks (C09L.newickToks m)) m &&
+       !C09L.textAgrees (C09L.showToks (C09L.newickToks m).reverse) m &&
+       !C09L.textAgrees (C09L.showToks ((C09L.newickToks m).filter fun t => match t with | .sup _ => false | _ => true)) m
+     | _ => false) = true := by decide +kernel
 
 end Gotree.C09
